@@ -76,8 +76,8 @@ FlushReq(e, rendered) ==
   IF ~e.execd THEN [e |-> e, err |-> TRUE, page |-> NoPage]                          \* flush before exec: refused, no effect
   ELSE LET dirty == DIRTY \in e.s.flags
            show == dirty /\ Len(e.s.path) > 0
-           \* the error prefix is shown once: cleared by the page that rendered it
-           s1 == [e.s EXCEPT !.flags = @ \ {DIRTY}, !.errp = IF show /\ rendered THEN NoErr ELSE @]
+           \* the error prefix belongs to one page: dropped by the render attempt, successful or not
+           s1 == [e.s EXCEPT !.flags = @ \ {DIRTY}, !.errp = IF show THEN NoErr ELSE @]
            pg == IF show /\ rendered THEN PageOf(s1, e.exit)
                  ELSE IF e.exit # NoVal THEN [NoPage EXCEPT !.exit = e.exit, !.shown = TRUE] ELSE NoPage
            fail == show /\ ~rendered /\ e.exit = NoVal
